@@ -176,8 +176,8 @@ example : agree [] [] 6 (.map (.prim .text) (.seq .nat))
 /-! ## native decoding against untyped decoding, for every wire type and every input -/
 
 /-- **native decoding at a Rust type agrees with untyped decoding at its Candid type** (mirrors `Native.lean` and
-`De.lean`).  For every environment, every Rust type `t` of the grammar without tuples, 128-bit integers, arrays,
-bounded vectors and byte sequences read as `Vec<u8>` (`ByteBuf` is covered), every expected type `e` that is `t`'s
+`De.lean`).  For every environment, every Rust type `t` of the grammar without tuples, 128-bit integers, arrays and
+bounded vectors (`Vec<u8>` and `ByteBuf` included: the bulk reader of bytes against the blob reader), every expected type `e` that is `t`'s
 Candid type in the strict sense of `agreeS`, **every wire type `w`** whose records and variants list their fields in
 ascending order of id (`srt`, `SortedEnv`: what the header parser guarantees of every type table), every input and
 decoder state with nothing metered, and every pair of depth budgets: unless one of the two runs stops at a limit of the
@@ -235,6 +235,10 @@ example : agreeS [] [] 6 (.map (.prim .text) (.seq .nat))
     (.vec (.record (.cons (.id 0) (.prim .text) (.cons (.id 1) (.vec (.prim .nat)) .nil)))) = true := by decide
 example : agreeS [] [] 6 (.map (.prim .nat32) .int)
     (.vec (.record (.cons (.id 0) (.prim .nat32) (.cons (.id 1) (.prim .int) .nil)))) = true := by decide
+
+/-- non-vacuity: `Vec<u8>` and a vector of a newtype around `u8` against `vec nat8` -/
+example : agreeS [] [] 5 (.seq (.prim .nat8)) (.vec (.prim .nat8)) = true := by decide
+example : agreeS [] [] 5 (.seq (.newtype (.prim .nat8))) (.vec (.prim .nat8)) = true := by decide
 
 /-- non-vacuity: `Vec<Option<Nat>>` against its Candid type, strictly, to depth 5 -/
 example : agreeS [] [] 5 (.seq (.opt .nat)) (.vec (.opt (.prim .nat))) = true := by decide
